@@ -17,7 +17,7 @@ func runC12(e *Env) error {
 	e.CaseType = "gcase"
 	e.ShardBytes = 120000
 	e.ShardSize = 150
-	e.Rule = "per topic: honest messages over the slots/committees/subnets of a window on chains built with the real transition (real BLS signatures), plus every single-condition corruption and the timing/availability failures; non-trivial = every case (each runs a validator against a chain view); distinct by (topic, corruption, verdict, ordinal)"
+	e.Rule = "per topic: honest messages over the slots/committees/subnets of a window on chains built with the real transition (real BLS signatures), plus every single-condition corruption and the timing/availability failures; world gap: blocks whose parent lies 2 and 3 epochs back (main chain and side branches, across the altair fork) and sync messages/contributions for a slot in a later sync-committee period than the signed head block where the committee rotated (every seat: new, kept, held only before), the sync committee given to the model being the one of the state at the message's slot; non-trivial = every case (each runs a validator against a chain view); distinct by (topic, corruption, verdict, ordinal)"
 	g := &Gen{E: e, Count: map[string]int{}, Salt: e.Rng.Intn(1 << 20)}
 	c := NewCrypto()
 	lap := func(what string) {
@@ -86,6 +86,60 @@ func runC12(e *Env) error {
 	g.genSyncMessages(fc, fheads)
 	g.genContributions(fc, fheads)
 	lap("sync few")
+	// world "gap": whole epochs without blocks between parent and child (2 and 3 epochs back; before, across and after the
+	// altair fork at epoch 3; main chain and three side branches) and a sync-committee period of 2 epochs, crossed with
+	// empty slots: at epochs 4 and 6 (nothing rotates: current == next since the upgrade) and at epochs 8 and 10 (the committee rotates)
+	gap := NewWorld(WorldKnobs{Name: "gap", Validators: 64, TargetCommittee: 4, SyncCommittee: 32, AltairEpoch: 3, ShardCommittee: 1, MaxCommitteeSize: 16, SyncPeriod: 2}, c)
+	gc := buildGapChain(gap)
+	lap("chain gap")
+	if e.Quick() {
+		// the blocks after a gap and the first block on each of them
+		var sel []*Node
+		for _, n := range append(append(append([]*Node{}, gc.Main[1:]...), gc.Side...), gc.Side2...) {
+			if gap.epochsBack(n) >= 2 || (n.Parent != nil && gap.epochsBack(n.Parent) >= 2) {
+				sel = append(sel, n)
+			}
+		}
+		g.genBlocksOf(gc, sel)
+	} else {
+		g.genBlocks(gc)
+	}
+	lap("blocks gap")
+	m62, m69, b63, m19, c26, m46 := gc.BySlot[62], gc.BySlot[69], gc.named("b63"), gc.BySlot[19], gc.named("c26"), gc.BySlot[46]
+	var gapAt, gapContribAt []HeadAt
+	if e.Quick() {
+		gapAt = []HeadAt{
+			{m62, 64}, {m62, 65}, // head block in the period before the message's, the committee rotated in between
+			{b63, 64}, {m69, 80}, // the same from a side branch; over a whole empty epoch
+			{m19, 24}, {c26, 32}, // phase0 head block and message after the upgrade; first period boundary after the upgrade: nothing rotates
+			{m62, 63}, // same period
+		}
+		gapContribAt = []HeadAt{{m62, 64}, {b63, 65}, {c26, 32}}
+	} else {
+		gapAt = []HeadAt{
+			{m62, 64}, {m62, 65}, // head block in the period before the message's, the committee rotated in between
+			{b63, 64}, {b63, 65}, // the same from a side branch
+			{m69, 80}, {m69, 81}, // over a whole empty epoch
+			{m19, 24}, {m19, 32}, // phase0 head block, message after the upgrade / after the first period boundary
+			{c26, 32}, {c26, 33}, // first period boundary after the upgrade: nothing rotates
+			{m46, 48}, {m46, 49}, // second period boundary: nothing rotates either
+			{m62, 62}, {m62, 63}, // same period
+		}
+		gapContribAt = gapAt
+	}
+	g.genSyncMessagesAt(gc, gapAt)
+	lap("sync messages gap")
+	g.genContributionsAt(gc, gapContribAt)
+	lap("contributions gap")
+	for _, k := range []string{"x_blocks_with_parent_2_epochs_back", "x_blocks_with_parent_3_epochs_back", "x_sync_views_head_in_earlier_period_committee_rotated",
+		"x_contrib_views_head_in_earlier_period_committee_rotated"} {
+		if extraInt(e.Extra[k]) == 0 {
+			return fmt.Errorf("generator lost a required history: %s = 0", k)
+		}
+	}
+	for _, k := range []string{"sync/honest[seat-new-in-this-period]=ACCEPT", "sync/seat-only-in-previous-period=REJECT", "block/honest[parent-2-epochs-back]=ACCEPT", "block/honest[parent-3-epochs-back]=ACCEPT"} {
+		e.Extra["x_"+k] = g.Count[k]
+	}
 	if !e.Quick() {
 		// world "mid": 128 validators, four committees of four per slot, altair from epoch 1; every topic again
 		mid := NewWorld(WorldKnobs{Name: "mid", Validators: 128, TargetCommittee: 4, SyncCommittee: 32, AltairEpoch: 1, ShardCommittee: 2, MaxCommitteeSize: 16}, c)
